@@ -68,10 +68,6 @@ def run(ctx) -> None:
                    message=f"{v}: matched-pair emission differs from inner_join's, so inner ⊆ {v} is not structural: "
                            f"inner_join {ref} vs {v} {mf}")
     ctx.section("containment", sib)
-    # early-return special cases (0x0 table instead of a 0-row table with the columns): row content is still "no rows"
-    ctx.info("join returns Table(()) when the left table has no rows and full_join when both have none: a 0x0 table "
-             "where a 0-row table with the columns would be expected - row content is still 'no rows' (not a violation "
-             "of the statement)")
     ctx.not_decided += [
         "the multiset symmetry full_join(L,R) ~ full_join(R,L) as a value equation",
         "equality/hash behaviour of key values at run time",
